@@ -40,6 +40,7 @@ type c02Case struct {
 	Dest  string    `json:"dest"` // typed | iface
 	Mode  string    `json:"mode"`
 	Seed  int64     `json:"seed,omitempty"`
+	Fam   string    `json:"fam,omitempty"` // graph family: "" = gen.Node, "B" = gen.Node2
 }
 
 func c02Build(n int, edges []c02Edge) *gen.Node {
@@ -66,10 +67,46 @@ func c02Build(n int, edges []c02Edge) *gen.Node {
 	return nodes[0]
 }
 
-func c02Graphs(n, maxEdges int) [][]c02Edge {
+func c02Build2(n int, edges []c02Edge) *gen.Node2 {
+	nodes := make([]*gen.Node2, n)
+	for i := range nodes {
+		nodes[i] = &gen.Node2{V: i + 1}
+	}
+	for _, e := range edges {
+		s, d := nodes[e.Src], nodes[e.Dst]
+		switch e.Kind {
+		case "arr":
+			if s.Arr == nil {
+				s.Arr = &[2]*gen.Node2{}
+			}
+			if s.Arr[0] == nil {
+				s.Arr[0] = d
+			} else {
+				s.Arr[1] = d
+			}
+		case "ps":
+			if s.PS == nil {
+				s.PS = &[]*gen.Node2{}
+			}
+			*s.PS = append(*s.PS, d)
+		case "pm":
+			if s.PM == nil {
+				s.PM = &map[string]*gen.Node2{}
+			}
+			(*s.PM)[fmt.Sprintf("k%d", len(*s.PM))] = d
+		case "val":
+			s.Val[0] = d
+		}
+	}
+	return nodes[0]
+}
+
+var c02Kinds = map[string][]string{"": {"next", "kid", "map", "any"}, "B": {"arr", "ps", "pm", "val"}}
+
+func c02Graphs(n, maxEdges int, family string) [][]c02Edge {
 	var all []c02Edge
 	for s := 0; s < n; s++ {
-		for _, k := range []string{"next", "kid", "map", "any"} {
+		for _, k := range c02Kinds[family] {
 			for d := 0; d < n; d++ {
 				all = append(all, c02Edge{s, k, d})
 			}
@@ -83,10 +120,20 @@ func c02Graphs(n, maxEdges int) [][]c02Edge {
 		single := map[string]bool{}
 		okc := true
 		for _, e := range cur {
-			if e.Kind == "next" || e.Kind == "any" {
+			if e.Kind == "next" || e.Kind == "any" || e.Kind == "val" {
 				k := fmt.Sprintf("%d%s", e.Src, e.Kind)
 				if single[k] {
 					okc = false
+				}
+				single[k] = true
+			}
+			if e.Kind == "arr" { // two slots
+				k := fmt.Sprintf("%d%s", e.Src, e.Kind)
+				if single[k+"2"] {
+					okc = false
+				}
+				if single[k] {
+					single[k+"2"] = true
 				}
 				single[k] = true
 			}
@@ -123,7 +170,7 @@ func c02Graphs(n, maxEdges int) [][]c02Edge {
 		}
 		for i := start; i < len(all); i++ {
 			rec(i+1, append(cur, all[i]))
-			if all[i].Kind == "kid" || all[i].Kind == "map" {
+			if k := all[i].Kind; k == "kid" || k == "map" || k == "arr" || k == "ps" || k == "pm" {
 				// a slice or map may hold the same node twice
 				rec(i, append(cur, all[i]))
 			}
@@ -170,7 +217,11 @@ func runC02(a Args) tr.Summary {
 		var g gen.Gen
 		switch c.Kind {
 		case "graph":
-			root := c02Build(c.N, c.Edges)
+			var root interface{} = c02Build(c.N, c.Edges)
+			nodeT := nodeT
+			if c.Fam == "B" {
+				root, nodeT = c02Build2(c.N, c.Edges), reflect.TypeOf((*gen.Node2)(nil))
+			}
 			if c.Dest == "typed" {
 				g = gen.Gen{Name: "graph:*Node", T: nodeT, Leaf: "graph"}
 				v = reflect.ValueOf(root)
@@ -235,14 +286,16 @@ func runC02(a Args) tr.Summary {
 		maxN, maxE = 4, 4
 	}
 	nontrivial := 0
-	for n := 1; n <= maxN; n++ {
-		gs := c02Graphs(n, maxE)
-		sort.Slice(gs, func(i, j int) bool { return len(gs[i]) < len(gs[j]) })
-		for _, edges := range gs {
-			for _, dest := range []string{"typed", "iface"} {
-				run(c02Case{Kind: "graph", N: n, Edges: edges, Dest: dest, Mode: "ref"})
-				if len(edges) >= n {
-					nontrivial++ // at least one edge beyond a tree: sharing or a cycle
+	for _, fam := range []string{"", "B"} {
+		for n := 1; n <= maxN; n++ {
+			gs := c02Graphs(n, maxE, fam)
+			sort.Slice(gs, func(i, j int) bool { return len(gs[i]) < len(gs[j]) })
+			for _, edges := range gs {
+				for _, dest := range []string{"typed", "iface"} {
+					run(c02Case{Kind: "graph", N: n, Edges: edges, Dest: dest, Mode: "ref", Fam: fam})
+					if len(edges) >= n {
+						nontrivial++ // at least one edge beyond a tree: sharing or a cycle
+					}
 				}
 			}
 		}
